@@ -106,6 +106,32 @@ NOWRAP_PUSH = '#pragma CPROVER check push\n#pragma CPROVER check disable "unsign
 NOWRAP_POP = '\n#pragma CPROVER check pop\n'
 
 
+_deftu_cache = {}
+def find_defining_tu(qn, not_tu):
+    """the library source file that defines C++ function qn ('Class::method' or 'function'), by text search"""
+    if qn in _deftu_cache: return _deftu_cache[qn]
+    import glob
+    pat = re.compile(r'(^|[\s\*&])%s\s*\(' % re.escape(qn), re.M)
+    hit = None
+    for f in sorted(glob.glob(os.path.join(REPO, 'src', '*', '*.cpp')) + glob.glob(os.path.join(REPO, 'src', 'Platforms', 'Gcc', '*.cpp'))):
+        rel = os.path.relpath(f, REPO)
+        if rel == not_tu: continue
+        try: txt = open(f, errors='replace').read()
+        except OSError: continue
+        for m in pat.finditer(txt):
+            # a definition: the parameter list is followed by '{' (possibly after const / initialisers), not by ';'
+            rest = txt[m.end():m.end() + 400]
+            d = 1; k = 0
+            while k < len(rest) and d:
+                d += rest[k] == '('; d -= rest[k] == ')'; k += 1
+            tail = rest[k:k + 80].lstrip()
+            if tail.startswith('{') or tail.startswith('const') and '{' in tail[:40] or tail.startswith(':'):
+                hit = rel; break
+        if hit: break
+    _deftu_cache[qn] = hit
+    return hit
+
+
 def splice(fn_text, fspec, loops):
     """insert contract clauses, loop contracts and ghost statements at the emitter's markers"""
     t = fn_text
@@ -205,12 +231,17 @@ def assemble(sess, sp, proof):
         # a callee the spec does not mention, defined in the same translation unit (a helper introduced by a refactoring):
         # verify it together with its caller instead of giving up (loops in it need unwinding like any contract-less loop)
         for c in sorted(r['calls']):
-            if c in listed or c in sp.stubs or c in sp.functions or c in a.auto_bodies or len(a.auto_bodies) >= 6: continue
+            if c in listed or c in sp.stubs or c in a.auto_bodies or len(a.auto_bodies) >= 6: continue
             if c.startswith('__builtin_') or c.startswith('PlatformSpecific') or c in ('VERIF_operator_new', 'VERIF_throw'): continue
             if re.search(r'\b%s\s*\(' % re.escape(c), text_all): continue
             f = u.fn.get(c)
             if f is not None and any(x.get('kind') == 'CompoundStmt' for x in f.get('inner', [])):
                 a.auto_bodies.append(c); names.append(c + '@' + tu if '@' not in c else c); listed.add(c)
+            elif f is not None and f.get('_qn'):
+                # declared here, defined in another translation unit of the library: find it by its qualified name
+                other = find_defining_tu(f['_qn'], tu)
+                if other:
+                    a.auto_bodies.append(c); names.append(c + '@' + other); listed.add(c)
         for g in r['globals']: globs[g] = u
         for k, v in r['rules'].items(): a.rules[k] = a.rules.get(k, 0) + v
         f, bo, eo, h = r['srchash']
@@ -281,8 +312,8 @@ def assemble(sess, sp, proof):
         if cn == proof.enforce and (not fs or not fs.contract.strip()): raise Broken('%s: enforced function %s has no contract' % (proof.name, cn))
         # a body verified together with the target keeps its loop contracts but its own pre/post are not used
         text = r['text']
-        if fs and proof.no_loop_contracts:
-            fs0 = specmod.FunctionSpec(cn); fs0.loops = {}; fs0.ghost = fs.ghost if proof.enforce else {}; fs0.contract = fs.contract; fs = fs0
+        if fs and (proof.no_loop_contracts or cn in a.auto_bodies):   # auto-inlined helpers run without their loop contracts (unwound)
+            fs0 = specmod.FunctionSpec(cn); fs0.loops = {}; fs0.ghost = fs.ghost if (proof.enforce and cn not in a.auto_bodies) else {}; fs0.contract = fs.contract; fs = fs0
         if cn != proof.enforce and fs:
             fs2 = specmod.FunctionSpec(cn); fs2.loops = fs.loops; fs2.ghost = fs.ghost; fs2.contract = ''
             text = splice(text, fs2, r['loops'])
@@ -312,7 +343,7 @@ def assemble(sess, sp, proof):
     for k, l in enumerate(lines):
         if l.startswith('#line ') and l.endswith('"proof.c"'): lines[k] = '#line %d "proof.c"' % (k + 2)
     a.text = '\n'.join(lines)
-    a.loops_with_contract = 0 if proof.no_loop_contracts else sum(len(sp.functions[b[0]].loops) for b in bodies if b[0] in sp.functions)
+    a.loops_with_contract = 0 if proof.no_loop_contracts else sum(len(sp.functions[b[0]].loops) for b in bodies if b[0] in sp.functions and b[0] not in a.auto_bodies)
     return a
 
 
